@@ -27,7 +27,8 @@ class Trace:
     def init_banks(self):
         out = []
         for b in self.c["banks"]:
-            out.append({"asv": b["asv"], "lsv": b["lsv"], "tas": 0, "tls": 0, "ins": 0, "grp": 0, "prog": 0,
+            out.append({"asv": b["asv"], "lsv": b["lsv"], "tas": b.get("tas", 0), "tls": b.get("tls", 0),
+                        "ins": b.get("ins", 0), "grp": b.get("grp", 0), "prog": b.get("prog", 0),
                         "last_update": b["last_update"], "flags": b["flags"], "op_state": b["op_state"],
                         "vault": 0, "insv": 0, "feev": 0, "feeata": 0, "lend_cnt": 0, "bor_cnt": 0})
         return out
